@@ -28,6 +28,9 @@ pub struct Flow {
     pub path: Path,
     pub chunks: Vec<usize>,
     pub read_buf: usize,
+    /// sizes of successive read calls (cyclic); empty = always `read_buf`. A size of 0 is a legal read
+    /// call ("is anything there?" probes, a full ReadBuf) that must return 0 and lose nothing.
+    pub read_pattern: Vec<usize>,
 }
 
 #[derive(Clone, Debug)]
@@ -91,14 +94,18 @@ async fn read_flow(
     let dir = if f.up { 0 } else { 1 };
     let reader = st.reader().clone();
     let mut total = 0usize;
-    let mut buf = vec![0u8; f.read_buf];
+    let mut buf = vec![0u8; f.read_buf.max(f.read_pattern.iter().copied().max().unwrap_or(0))];
     let who = format!("stream {} {}", f.stream + 1, if f.up { "up" } else { "down" });
+    let mut call = 0usize;
     while total < expect {
+        let size = if f.read_pattern.is_empty() { f.read_buf } else { f.read_pattern[call % f.read_pattern.len()] };
+        call += 1;
         let r = {
             let mut g = reader.lock().await;
-            within(g.read(&mut buf)).await
+            within(g.read(&mut buf[..size])).await
         };
         match r {
+            Some(Ok(0)) if size == 0 => {}
             None => {
                 vl(&viols, "C01:lost", format!("{who}: reader blocked forever after {total} of {expect} bytes — the rest never arrives"));
                 return format!("{who}: stuck at {total}/{expect}");
@@ -126,6 +133,9 @@ async fn read_flow(
         }
     }
     // everything seen: nothing more may arrive while the stream stays open
+    if buf.is_empty() {
+        buf.push(0);
+    }
     let extra = {
         let mut g = reader.lock().await;
         tokio::time::timeout(Duration::from_secs(30), g.read(&mut buf)).await
@@ -332,7 +342,7 @@ pub fn make_banner(p: BannerParams) -> ScenarioFn {
                     if let Some(Err(e)) = within(c.write_data_frame(st.id(), Bytes::from_static(b"D"))).await {
                         vl(&viols, "C01:write-failed", format!("opener {t}: {e}"));
                     }
-                    let f = Flow { stream: st.id() as usize - 1, up: false, path: Path::Forward, chunks: vec![20], read_buf: 64 };
+                    let f = Flow { stream: st.id() as usize - 1, up: false, path: Path::Forward, chunks: vec![20], read_buf: 64, read_pattern: vec![] };
                     read_flow(st.clone(), f, st.id() as u8, 20, viols.clone()).await
                 }));
             }
@@ -361,7 +371,7 @@ pub fn banner_json(p: &BannerParams) -> serde_json::Value {
 pub fn params_json(p: &Params) -> serde_json::Value {
     json!({"streams": p.streams, "scheme": p.scheme_name, "capacity": if p.capacity == usize::MAX { -1 } else { p.capacity as i64 },
         "read_menu": p.read_menu, "write_menu": p.write_menu,
-        "flows": p.flows.iter().map(|f| json!({"s": f.stream + 1, "up": f.up, "path": format!("{:?}", f.path), "chunks": f.chunks, "rbuf": f.read_buf})).collect::<Vec<_>>()})
+        "flows": p.flows.iter().map(|f| json!({"s": f.stream + 1, "up": f.up, "path": format!("{:?}", f.path), "chunks": f.chunks, "rbuf": f.read_buf, "read_calls": f.read_pattern})).collect::<Vec<_>>()})
 }
 
 const SIZES: [usize; 15] =
@@ -406,6 +416,19 @@ pub fn all_params(tier: Tier) -> Vec<(Params, usize)> {
                     if !thorough && (si + up as usize + (path == Path::Forward) as usize) % 3 != (scheme_name.len() % 3) {
                         continue;
                     }
+                    // read calls of varying sizes, zero-length ones among them
+                    v.push((
+                        Params {
+                            streams: 1,
+                            flows: vec![Flow { stream: 0, up, path, chunks: seq.clone(), read_buf: 8192, read_pattern: if total <= 20000 { vec![0, 7, 0, 0, 8192, 1] } else { vec![0, 8192] } }],
+                            scheme,
+                            scheme_name,
+                            capacity: usize::MAX,
+                            read_menu: false,
+                            write_menu: false,
+                        },
+                        0,
+                    ));
                     for rb in rbufs {
                         for cap in [usize::MAX, 1000] {
                             if cap == 1000 && !thorough && rb != 8192 {
@@ -414,7 +437,7 @@ pub fn all_params(tier: Tier) -> Vec<(Params, usize)> {
                             v.push((
                                 Params {
                                     streams: 1,
-                                    flows: vec![Flow { stream: 0, up, path, chunks: seq.clone(), read_buf: rb }],
+                                    flows: vec![Flow { stream: 0, up, path, chunks: seq.clone(), read_buf: rb, read_pattern: vec![] }],
                                     scheme,
                                     scheme_name,
                                     capacity: cap,
@@ -431,7 +454,7 @@ pub fn all_params(tier: Tier) -> Vec<(Params, usize)> {
     }
     // Part B: concurrent flows with schedule / transport deviations
     let b = if thorough { 3 } else { 2 };
-    let f = |stream, up, path, chunks: &[usize], rb| Flow { stream, up, path, chunks: chunks.to_vec(), read_buf: rb };
+    let f = |stream, up, path, chunks: &[usize], rb| Flow { stream, up, path, chunks: chunks.to_vec(), read_buf: rb, read_pattern: vec![] };
     let schemes_b: [(&'static str, &'static str); 4] = [(STOP0, "stop0"), (DEFAULT, "default"), (TINY, "tiny"), (BRANCHY, "branchy")];
     for (scheme, scheme_name) in schemes_b {
         if !thorough && scheme_name == "default" {
